@@ -806,10 +806,19 @@ theorem stepOp_inv {h : Host} (op : Op) (hi : Inv h) : Inv (stepOp h op).1 := by
         · subst h1
           simp only [upd_same, Option.some.injEq] at hc'
           subst hc'
-          constructor <;> simp_all
-          · exact hold.root
-          · exact hold.size
+          have hcap' : c.body.filesize ≤ c.body.capacity := by
+            have := hold.cap
+            simp only [Bool.or_eq_true, beq_iff_eq] at hcap
+            rcases hcap with hcap | hcap <;> omega
+          constructor
+          · show metaRoot cs.roots = c.body.root; rw [hroot]; exact hold.root
+          · show cs.roots.length = c.body.filesize; rw [hfs]; exact hold.size
+          · exact hcap'
+          · show c.renterSig = _; rw [hrs, hrk]
+          · show c.hostSig = _; rw [hhs, hhk]
           · exact hold.stored
+          · exact hm
+          · exact hh
         · simp only [upd_other _ _ _ _ h1] at hc'
           by_cases h2 : cid' = cid
           · subst h2
